@@ -567,10 +567,25 @@ func (w *matWorld) step(r *prng.Rand, cs *fw.Case, nvar, order int) (string, str
 }
 
 func (w *matWorld) checkLive(li *liveMatIt) *failure {
+	// successor semantics in row-major order
+	ei, ej := -1, -1
+	for k := 0; k < w.R*w.C && w.C > 0; k++ {
+		x, y := k/w.C, k%w.C
+		if (x > li.li || (x == li.li && y > li.lj)) && !isZero(snap.Scalar(w.m[k]), w.t.IsInt) {
+			ei, ej = x, y
+			break
+		}
+	}
 	if !li.it.Ok() {
+		if ei >= 0 {
+			return &failure{"live-iterator-skip", fmt.Sprintf("live iterator exhausted after (%d,%d), but (%d,%d) holds a non-zero element", li.li, li.lj, ei, ej)}
+		}
 		return nil
 	}
 	i, j := li.it.Index()
+	if ei >= 0 && (i > ei || (i == ei && j > ej)) {
+		return &failure{"live-iterator-skip", fmt.Sprintf("live iterator moved from (%d,%d) to (%d,%d) and skipped the non-zero element at (%d,%d)", li.li, li.lj, i, j, ei, ej)}
+	}
 	if i < li.li || (i == li.li && j <= li.lj) {
 		return &failure{"live-iterator-order", fmt.Sprintf("live iterator yields (%d,%d) after (%d,%d)", i, j, li.li, li.lj)}
 	}
